@@ -7,7 +7,8 @@ Import ListNotations.
 Local Open Scope Z_scope.
 
 Definition q_hr (n es : Z) : Z := 2^es * (2 * n - 4).            (* half_range: position of the fixed point *)
-Definition q_bits (n es cap : Z) : Z := 2 * q_hr n es + cap.
+(* magnitude bits: lower segment (hr) + upper segment (hr + 1) + capacity *)
+Definition q_bits (n es cap : Z) : Z := 2 * q_hr n es + 1 + cap.
 
 (* a rational as an integer number of quire units 2^-hr, if it is one *)
 Definition q_units (n es : Z) (x : Q) : option Z :=
